@@ -346,7 +346,88 @@ def r1_structural(ctx):
                "all-integers strengthening is not claimed on this tree, the verdict rests on RK's enumerated layouts")
 
 
+SEQ = "sequence.sequence:Sequence"
+
+
+def rc_chains(ctx):
+    """chains on located sequences whose location has several blocks (products of append): concatenation is accepted exactly
+    when the second operand lies wholly 3' of the first (5'->3' order = concatenation order), so operands whose blocks interleave
+    are refused; every accepted product, its reverse complement, and slices of those spell their recorded location"""
+    r, repo = ctx.r, ctx.repo
+    it = gene_interp(repo, max_steps=10 ** 10)
+    S = strands(it)
+    f_get, f_rc, f_app = repo.fn(f"{SEQ}.__getitem__"), repo.fn(f"{SEQ}.reverse_complement"), repo.fn(f"{SEQ}.append")
+    n = 0
+    L = len(GENOME)
+    for sn in ("PLUS", "MINUS"):
+        whole = mk_sequence(it, image([(0, L)], sn), ALPHA, parent=mk_parent(it, location=_mk_loc(it, S, [(0, L)], sn, None)))
+        cut = lambda a, b: run(it, f_get, [slice(a, b)], {}, whole)[1]  # noqa: E731
+        # pieces in 5'->3' order of the located sequence
+        p1, p2, p3, p4 = cut(0, 4), cut(7, 11), cut(14, 18), cut(20, 23)
+
+        def spelled_ok(d):
+            par = d.fields.get("parent")
+            dl = par.fields.get("location") if isinstance(par, Obj) else None
+            if dl is None or is_empty_obj(dl):
+                return False, "no recorded location"
+            sp = image(blocks_of(dl), strand_of(dl).name)
+            return ut(sp) == ut(d.fields["sequence"]), f"characters {d.fields['sequence']!r}, recorded location {blocks_of(dl)}:{strand_of(dl).name} spells {sp!r}"
+
+        def app(a, b):
+            return run(it, f_app, [b], {}, a)
+        k13, x13 = app(p1, p3)          # blocks 1 and 3: a gap that holds piece 2
+        k24, x24 = app(p2, p4)
+        k12, x12 = app(p1, p2)
+        k34, x34 = app(p3, p4)
+        cases = [
+            ("x(1,3).append(piece 2)  [piece 2 lies inside the gap of x]", x13, p2, False),
+            ("piece 2.append(x(1,3))  [x starts 5' of piece 2]", p2, x13, False),
+            ("x(1,3).append(x(2,4))  [blocks interleave]", x13, x24, False),
+            ("x(2,4).append(x(1,3))  [blocks interleave, wrong order]", x24, x13, False),
+            ("x(1,2).append(x(3,4))  [wholly 3']", x12, x34, True),
+            ("x(3,4).append(x(1,2))  [wholly 5': wrong order]", x34, x12, False),
+            ("x(1,3).append(piece 4)  [wholly 3']", x13, p4, True),
+            ("piece 1.append(x(2,4))  [wholly 3']", p1, x24, True),
+        ]
+        if not all(k == "ok" for k in (k13, k24, k12, k34)):
+            r.violation("C03.RC", f_app.qual, f"append across a gap ({sn})", f"appending two ordered pieces of a {sn} sequence raises", f_app)
+            continue
+        for label, a, b, accept in cases:
+            n += 1
+            k, v = app(a, b)
+            if accept:
+                okv = k == "ok" and v.fields["sequence"] == a.fields["sequence"] + b.fields["sequence"]
+                detail = ""
+                if okv:
+                    okv, detail = spelled_ok(v)
+                r.check(okv, "C03.RC", f_app.qual, f"ordered compound operands are concatenated ({sn})",
+                        f"{sn}: {label} -> {k}:{v.fields['sequence'] if k == 'ok' else v}; expected the concatenation with a location that spells it ({detail})", f_app)
+                if okv:
+                    # reverse complement of the product, and a slice of that: still spelled by their recorded locations
+                    n += 2
+                    kr, rcv = run(it, f_rc, [], {}, v)
+                    good, detail = spelled_ok(rcv) if kr == "ok" else (False, rcv)
+                    r.check(good, "C03.RC", f_rc.qual, f"reverse complement of a product of append ({sn})",
+                            f"{sn}: ({label}).reverse_complement(): {detail}", f_rc)
+                    if kr == "ok":
+                        ks, sl = run(it, f_get, [slice(1, len(rcv.fields["sequence"]) - 2)], {}, rcv)
+                        good, detail = spelled_ok(sl) if ks == "ok" else (False, sl)
+                        r.check(good, "C03.RC", f_get.qual, f"slice of the reverse complement of a product of append ({sn})",
+                                f"{sn}: ({label}).reverse_complement()[1:-2]: {detail}", f_get)
+            else:
+                good = k == "raise" and v == "ValueError"
+                if k == "ok":
+                    # a product whose location does not describe its characters is what the refusal prevents
+                    _g, detail = spelled_ok(v)
+                else:
+                    detail = v
+                r.check(good, "C03.RC", f_app.qual, f"operands that are not in 5'->3' order are refused ({sn})",
+                        f"{sn}: {label} -> {k}:{detail}; documented ValueError", f_app)
+    r.floor("C03.RC", "append chain cases", n, 16)
+
+
 RULES = [
+    ("C03.RC", rc_chains),
     ("C03.RK", rk_interpreted),
     ("C03.R1", r1_structural),
 ]
